@@ -403,6 +403,11 @@ def lifecycle(ctx, msel, SEL, world):
                 return g, V
         if name == "start":
             g["started"] = True
+            if not any(ev[0] == "on_enable" for ev in events) and not (isinstance(outcome, tuple) and outcome[0] == "raise"):
+                # this start() selected nothing: from now on no mode is active (a mode left over from an earlier period that
+                # was not ended with disable() must not go on receiving callbacks)
+                g["active"] = None
+                g["phase"] = "idle"
         for ev in events:
             k, mode, args = ev
             mid = None if mode is None else mode.path
